@@ -398,6 +398,7 @@ class EscapeAnalysis:
         or expression), not descending into nested defs/lambdas."""
         out = {}
         facts = None
+        self._cur_func = func
         for n in walk_no_nested(node):
             if isinstance(n, ast.Lambda):
                 continue
